@@ -15,6 +15,8 @@ INVALID = [
     'def e { splitters: u return "a" weighted 1 } def f { return "b" weighted 1 }',   # two definitions
     '',
     'def e { splitters: class return "a" weighted 1 }',    # fails in compile() of the generated text
+    'def e { splitters: u return "a" weighted 1 } /* notes',   # ends inside a block comment
+    'def e { splitters: u return "a  b" weighted 1 ',          # (whitespace inside a literal, and no closing brace)
 ]
 
 
@@ -27,6 +29,9 @@ def texts(rng):
         valid.append(f'def {name} {{ {salt} splitters: u if x > 5 {{ return "hi" weighted {w1}, "HI" weighted {w2} }} '
                      f'else {{ return "lo" weighted 1 }} }}')
     valid.append('def g { splitters: u, v return 1 weighted 1, 2 weighted 1, 3 weighted 1 }')
+    valid.append('def w { splitters: u return "group A" weighted 1, "x" weighted 1 }')
+    valid.append('def w { splitters: u return "group  A" weighted 1, "x" weighted 1 }')      # differs only in white space inside a literal
+    valid.append('def w { splitters: u  return  "group A"  weighted 1,\n "x" weighted 1 } // c')  # differs only in layout
     return valid, list(INVALID)
 
 
